@@ -1,6 +1,7 @@
 import Driver.Proto
 import Driver.C09
 import Driver.C21
+import Driver.C12
 /-
   Model driver: reads one request per line on stdin (`<suite> <op> <args…>`), answers one
   line per request on stdout.  Imports models only (no Mathlib, no proofs).
@@ -11,6 +12,7 @@ def dispatch (fs : List String) : String :=
   match fs with
   | "c09" :: rest => Driver.c09 IronCalc.Generated.parenStringify rest
   | "c21" :: rest => Driver.c21 rest
+  | "c12" :: rest => Driver.c12 rest
   | _ => "bad-op"
 
 partial def loop (h : IO.FS.Stream) (out : IO.FS.Stream) : IO Unit := do
